@@ -68,3 +68,317 @@ package v1
 //@   ensures @C19 err == nil ==> (if m.SigValue != "" then rawOk(m.SigValue) && CM.SignatureValue != nil && fresh(CM.SignatureValue) && bytes(deref(CM.SignatureValue).Bytes) == rawBytes(m.SigValue) && deref(CM.SignatureValue).BitLength == 8 * len(deref(CM.SignatureValue).Bytes) else CM.SignatureValue == OM.SignatureValue)
 //@   ensures @C19 err == nil ==> (if m.TbsPubKey != "" then rawOk(m.TbsPubKey) && CM.TbsPublicKey != nil && fresh(CM.TbsPublicKey) && bytes(deref(CM.TbsPublicKey).Bytes) == rawBytes(m.TbsPubKey) && deref(CM.TbsPublicKey).BitLength == 8 * len(deref(CM.TbsPublicKey).Bytes) else CM.TbsPublicKey == OM.TbsPublicKey)
 //@   ensures @C19 (m.OuterSigAlg != "" && !isOidStr(m.OuterSigAlg)) || (m.TbsSig != "" && !isOidStr(m.TbsSig)) || (m.TbsPubKeyAlg != "" && !isOidStr(m.TbsPubKeyAlg)) || (m.SigValue != "" && !rawOk(m.SigValue)) || (m.TbsPubKey != "" && !rawOk(m.TbsPubKey)) ==> err != nil
+
+// ---- initCertificate (C03, C04, C05, C19): the parsed configuration carries exactly what the file says
+//@ func parseExtensions returns (res, err)
+//@   props C06
+//@   unverified iterates the fields of AnyExtension by reflection with a non-constant bound (bounded stand-in TestVerifBoundedParseExtensions)
+//@   bounded TestVerifBoundedParseExtensions
+
+//@ func initCertificate returns (res, err)
+//@   props C03 C04 C05 C19
+//@   uses raw.smt2 algs.smt2 names.smt2 time.smt2
+//@   given forall n string :: has(keyAlgorithms, n) <==> specKeyAlg(n) >= 0
+//@   given forall n string :: has(keyAlgorithms, n) ==> keyAlgorithms[n] == specKeyAlg(n)
+//@   given forall n string :: has(sigAlgorithms, n) <==> specSigAlg(n) >= 0
+//@   given forall n string :: has(sigAlgorithms, n) ==> sigAlgorithms[n] == specSigAlg(n)
+//@   let KA = c.KeyAlgorithm
+//@   let SA = c.SignatureAlgorithm
+//@   ensures err == nil ==> res != nil && fresh(res)
+//@   ensures err != nil ==> res == nil
+//@   ensures @C03 err == nil ==> res.SerialNumber == c.SerialNumber && res.Alias == c.Alias && res.Issuer == c.Issuer && res.Profile == c.Profile
+//@   ensures @C03 err == nil ==> (if c.IssuerUniqueId != "" then rawOk(c.IssuerUniqueId) && bytes(res.IssuerUniqueId.Bytes) == rawBytes(c.IssuerUniqueId) && res.IssuerUniqueId.BitLength == 8 * len(res.IssuerUniqueId.Bytes) else res.IssuerUniqueId.Bytes == nil && res.IssuerUniqueId.BitLength == 0)
+//@   ensures @C03 err == nil ==> (if c.SubjectUniqueId != "" then rawOk(c.SubjectUniqueId) && bytes(res.SubjectUniqueId.Bytes) == rawBytes(c.SubjectUniqueId) && res.SubjectUniqueId.BitLength == 8 * len(res.SubjectUniqueId.Bytes) else res.SubjectUniqueId.Bytes == nil && res.SubjectUniqueId.BitLength == 0)
+//@   ensures @C03 err == nil ==> called("gopki/generator/config.ParseRDNSequence", 1) && callres("gopki/generator/config.ParseRDNSequence", 1, 1) == nil && res.Subject == callres("gopki/generator/config.ParseRDNSequence", 1, 0)
+//@   ensures @C04 err == nil ==> called("(gopki/generator/config/v1.CertValidity).toTimeStruct", 1) && callres("(gopki/generator/config/v1.CertValidity).toTimeStruct", 1, 1) == nil && res.Validity == callres("(gopki/generator/config/v1.CertValidity).toTimeStruct", 1, 0)
+//@   ensures @C05 err == nil ==> (if KA == "" then res.KeyAlgorithm == 5 else specKeyAlg(KA) >= 0 && res.KeyAlgorithm == specKeyAlg(KA))
+//@   ensures @C05 KA != "" && specKeyAlg(KA) < 0 ==> err != nil
+//@   ensures @C05 err == nil ==> (if SA != "" then specSigAlg(SA) >= 0 && res.SignatureAlgorithm == specSigAlg(SA) else res.SignatureAlgorithm == (if (KA != "" && specKeyAlg(KA) <= 3) then 1 else 5))
+//@   ensures @C05 SA != "" && specSigAlg(SA) < 0 ==> err != nil
+//@   ensures @C19 called("(gopki/generator/config/v1.Manipulations).Apply", 1) && callres("(gopki/generator/config/v1.Manipulations).Apply", 1, 0) != nil ==> err != nil
+//@   ensures @C06 err == nil ==> called("gopki/generator/config/v1.parseExtensions", 1) && res.Extensions == callres("gopki/generator/config/v1.parseExtensions", 1, 0)
+
+// ---- extension configurations (C06: identifier, critical flag, raw bytes; C07: content)
+// Common shape of every Builder (commonExtensionHandler inlined, its reflection evaluated for the concrete type):
+// neither raw nor content -> OverrideNeededBuilder; both -> error; raw -> ConstantBuilder{Oid, Critical, raw bytes}.
+//@ filelet OVR = "gopki/generator/config.OverrideNeededBuilder"
+//@ filelet CONST = "gopki/generator/config.ConstantBuilder"
+
+//@ func (KeyUsage).Oid returns (r)
+//@   props C06
+//@   uses ext.smt2
+//@   ensures @C06 r != nil && oidv(r) == specExtOid(1)
+
+//@ func (KeyUsage).Builder returns (b, err)
+//@   props C06 C07
+//@   uses v1ext.smt2
+//@   inline commonExtensionHandler
+//@   let CT = old(seq(k.Content))
+//@   ensures @C06 k.Raw == "" && k.Content == nil ==> err == nil && typeis(b, "gopki/generator/config.OverrideNeededBuilder")
+//@   ensures @C06 k.Raw != "" && k.Content != nil ==> err != nil
+//@   ensures @C06 k.Raw != "" && k.Content == nil ==> ((err == nil) <==> rawOk(k.Raw))
+//@   ensures @C06 k.Raw != "" && k.Content == nil && err == nil ==> typeis(b, "gopki/generator/config.ConstantBuilder") && oidv(unboxed(b, "gopki/generator/config.ConstantBuilder").Extension.Id) == specExtOid(1) && unboxed(b, "gopki/generator/config.ConstantBuilder").Extension.Critical == k.Critical && bytes(unboxed(b, "gopki/generator/config.ConstantBuilder").Extension.Value) == rawBytes(k.Raw)
+//@   ensures @C07 k.Raw == "" && k.Content != nil ==> ((err == nil) <==> kuOk(CT, 0))
+//@   ensures @C06,C07 k.Raw == "" && k.Content != nil && err == nil ==> typeis(b, "gopki/generator/config.ConstantBuilder") && oidv(unboxed(b, "gopki/generator/config.ConstantBuilder").Extension.Id) == specExtOid(1) && unboxed(b, "gopki/generator/config.ConstantBuilder").Extension.Critical == k.Critical && bytes(unboxed(b, "gopki/generator/config.ConstantBuilder").Extension.Value) == bitstringDer(namedBytes(asbyte(kuFold(CT, 0, b8(0))) & 254), namedBitLen(asbyte(kuFold(CT, 0, b8(0))) & 254))
+//@   loop 1
+//@     invariant 0 <= idx && idx <= len(k.Content)
+//@     invariant @C07 kuFold(CT, idx, usageFlags) == kuFold(CT, 0, b8(0))
+//@     invariant @C07 kuOk(CT, idx) == kuOk(CT, 0)
+
+//@ func (SubjectKeyIdentifier).Oid returns (r)
+//@   props C06
+//@   uses ext.smt2
+//@   ensures @C06 r != nil && oidv(r) == specExtOid(0)
+
+//@ func (SubjectKeyIdentifier).Builder returns (b, err)
+//@   props C06 C07
+//@   uses v1ext.smt2
+//@   inline commonExtensionHandler
+//@   ensures @C06 s.Raw == "" && s.Content == "" ==> err == nil && typeis(b, "gopki/generator/config.OverrideNeededBuilder")
+//@   ensures @C06 s.Raw != "" && s.Content != "" ==> err != nil
+//@   ensures @C06 s.Raw != "" && s.Content == "" ==> ((err == nil) <==> rawOk(s.Raw))
+//@   ensures @C06 s.Raw != "" && s.Content == "" && err == nil ==> typeis(b, "gopki/generator/config.ConstantBuilder") && oidv(unboxed(b, "gopki/generator/config.ConstantBuilder").Extension.Id) == specExtOid(0) && unboxed(b, "gopki/generator/config.ConstantBuilder").Extension.Critical == s.Critical && bytes(unboxed(b, "gopki/generator/config.ConstantBuilder").Extension.Value) == rawBytes(s.Raw)
+//@   ensures @C06,C07 s.Raw == "" && hasPrefix(s.Content, "!binary:") ==> ((err == nil) <==> rawOk(s.Content)) && (err == nil ==> typeis(b, "gopki/generator/config.ConstantBuilder") && oidv(unboxed(b, "gopki/generator/config.ConstantBuilder").Extension.Id) == specExtOid(0) && unboxed(b, "gopki/generator/config.ConstantBuilder").Extension.Critical == s.Critical && bytes(unboxed(b, "gopki/generator/config.ConstantBuilder").Extension.Value) == rawBytes(s.Content))
+//@   ensures @C07,C01 s.Raw == "" && s.Content != "" && !hasPrefix(s.Content, "!binary:") ==> ((err == nil) <==> s.Content == "hash")
+//@   ensures @C07,C01 s.Raw == "" && s.Content == "hash" && !hasPrefix(s.Content, "!binary:") && err == nil ==> typeis(b, "gopki/generator/config.FunctionBuilder") && isclosure(unboxed(b, "gopki/generator/config.FunctionBuilder").Function, "(gopki/generator/config/v1.SubjectKeyIdentifier).Builder$1") && deref(captured(unboxed(b, "gopki/generator/config.FunctionBuilder").Function, 0)) == s
+
+// the function behind subjectKeyIdentifier "hash": SHA-1 of the subject public key bits of the context it is compiled in
+//@ func (SubjectKeyIdentifier).Builder$1 returns (ext, err)
+//@   props C01 C07
+//@   uses ext.smt2
+//@   requires ctx != nil ==> ctx.TbsCertificate != nil
+//@   ensures @C06 err == nil ==> ext != nil && ext.Critical == s.Critical && oidv(ext.Id) == specExtOid(0)
+//@   ensures @C01,C07 err == nil ==> bytes(ext.Value) == der(deepBytes(digest(3, bytes(old(ctx.TbsCertificate.PublicKey.PublicKey.Bytes)))))
+
+//@ func (SubjectAltName).Oid returns (r)
+//@   props C06
+//@   uses ext.smt2
+//@   ensures @C06 r != nil && oidv(r) == specExtOid(5)
+
+//@ func (SubjectAltName).Builder returns (b, err)
+//@   props C06 C07
+//@   uses v1ext.smt2
+//@   inline commonExtensionHandler
+//@   ensures @C06 s.Raw == "" && s.Content == nil ==> err == nil && typeis(b, "gopki/generator/config.OverrideNeededBuilder")
+//@   ensures @C06 s.Raw != "" && s.Content != nil ==> err != nil
+//@   ensures @C06 s.Raw != "" && s.Content == nil ==> ((err == nil) <==> rawOk(s.Raw))
+//@   ensures @C06 s.Raw != "" && s.Content == nil && err == nil ==> typeis(b, "gopki/generator/config.ConstantBuilder") && oidv(unboxed(b, "gopki/generator/config.ConstantBuilder").Extension.Id) == specExtOid(5) && unboxed(b, "gopki/generator/config.ConstantBuilder").Extension.Critical == s.Critical && bytes(unboxed(b, "gopki/generator/config.ConstantBuilder").Extension.Value) == rawBytes(s.Raw)
+//@   let CT = old(seq(s.Content))
+//@   ghostret NAMES (View Any) = seq(sanValues)
+//@   ensures @C07 s.Raw == "" && s.Content != nil && err == nil ==> sanAllOk(CT, 0)
+//@   ensures @C06,C07 bound(NAMES) ==> s.Raw == "" && s.Content != nil && err == nil ==> typeis(b, "gopki/generator/config.ConstantBuilder") && oidv(unboxed(b, "gopki/generator/config.ConstantBuilder").Extension.Id) == specExtOid(5) && unboxed(b, "gopki/generator/config.ConstantBuilder").Extension.Critical == s.Critical && bytes(unboxed(b, "gopki/generator/config.ConstantBuilder").Extension.Value) == tlv(0, 16, true, catNames(NAMES, 0, #bempty))
+//@   ensures @C07 bound(NAMES) ==> s.Raw == "" && s.Content != nil && err == nil ==> vlen(NAMES) == len(s.Content) && (forall k in [0, len(s.Content)) :: gnDer(NAMES[k]) == sanDer(CT[k]))
+//@   loop 1
+//@     invariant 0 <= idx && idx <= len(s.Content) && len(sanValues) == len(s.Content)
+//@     invariant @C07 sanAllOk(CT, idx) == sanAllOk(CT, 0)
+//@     invariant @C07 forall k in [0, idx) :: gnDer(sanValues[k]) == sanDer(CT[k])
+//@   loop 2
+//@     invariant 0 <= idx && idx <= len(octets) && len(octets) == 4
+//@     invariant @C07 forall j in [0, idx) :: octetOk(component.Name, j) && ipAddr[j] == octet(component.Name, j)
+
+//@ func (BasicConstraints).Oid returns (r)
+//@   props C06
+//@   uses ext.smt2
+//@   ensures @C06 r != nil && oidv(r) == specExtOid(4)
+
+//@ func (BasicConstraints).Builder returns (res, err)
+//@   props C06 C07
+//@   uses v1ext.smt2
+//@   inline commonExtensionHandler
+//@   ensures @C06 b.Raw == "" && b.Content == nil ==> err == nil && typeis(res, "gopki/generator/config.OverrideNeededBuilder")
+//@   ensures @C06 b.Raw != "" && b.Content != nil ==> err != nil
+//@   ensures @C06 b.Raw != "" && b.Content == nil ==> ((err == nil) <==> rawOk(b.Raw))
+//@   ensures @C06 b.Raw != "" && b.Content == nil && err == nil ==> typeis(res, "gopki/generator/config.ConstantBuilder") && oidv(unboxed(res, "gopki/generator/config.ConstantBuilder").Extension.Id) == specExtOid(4) && unboxed(res, "gopki/generator/config.ConstantBuilder").Extension.Critical == b.Critical && bytes(unboxed(res, "gopki/generator/config.ConstantBuilder").Extension.Value) == rawBytes(b.Raw)
+//@   ensures @C06,C07 b.Raw == "" && b.Content != nil ==> err == nil && typeis(res, "gopki/generator/config.ConstantBuilder")
+//@   ensures @C06,C07 typeis(res, "gopki/generator/config.ConstantBuilder") && b.Raw == "" && b.Content != nil ==> oidv(unboxed(res, "gopki/generator/config.ConstantBuilder").Extension.Id) == specExtOid(4) && unboxed(res, "gopki/generator/config.ConstantBuilder").Extension.Critical == b.Critical && bytes(unboxed(res, "gopki/generator/config.ConstantBuilder").Extension.Value) == bcDer(old(b.Content.Ca), old(b.Content.PathLen))
+
+//@ func (CertPolicies).Oid returns (r)
+//@   props C06
+//@   uses ext.smt2
+//@   ensures @C06 r != nil && oidv(r) == specExtOid(6)
+
+//@ func (CertPolicies).Builder returns (b, err)
+//@   props C06 C07
+//@   uses v1ext.smt2
+//@   inline commonExtensionHandler
+//@   ensures @C06 c.Raw == "" && c.Content == nil ==> err == nil && typeis(b, "gopki/generator/config.OverrideNeededBuilder")
+//@   ensures @C06 c.Raw != "" && c.Content != nil ==> err != nil
+//@   ensures @C06 c.Raw != "" && c.Content == nil ==> ((err == nil) <==> rawOk(c.Raw))
+//@   ensures @C06 c.Raw != "" && c.Content == nil && err == nil ==> typeis(b, "gopki/generator/config.ConstantBuilder") && oidv(unboxed(b, "gopki/generator/config.ConstantBuilder").Extension.Id) == specExtOid(6) && unboxed(b, "gopki/generator/config.ConstantBuilder").Extension.Critical == c.Critical && bytes(unboxed(b, "gopki/generator/config.ConstantBuilder").Extension.Value) == rawBytes(c.Raw)
+//@   let CT = old(seq(c.Content))
+//@   ghostret POL (View S_cert_PolicyInfo) = seq(policyIds)
+//@   ensures @C06,C07 bound(POL) ==> c.Raw == "" && c.Content != nil && err == nil ==> typeis(b, "gopki/generator/config.ConstantBuilder") && oidv(unboxed(b, "gopki/generator/config.ConstantBuilder").Extension.Id) == specExtOid(6) && unboxed(b, "gopki/generator/config.ConstantBuilder").Extension.Critical == c.Critical && bytes(unboxed(b, "gopki/generator/config.ConstantBuilder").Extension.Value) == der(deep(policyIds))
+//@   ensures @C07 bound(POL) ==> c.Raw == "" && c.Content != nil && err == nil ==> vlen(POL) == len(c.Content) && (forall k in [0, len(c.Content)) :: isOidStr(CT[k].Oid) && oidv(policyIds[k].ObjectIdentifier) == parseOid(CT[k].Oid) && len(policyIds[k].Qualifiers) == len(CT[k].Qualifiers))
+//@   loop 1
+//@     invariant 0 <= idx && idx <= len(c.Content) && len(policyIds) == len(c.Content)
+//@     invariant @C07 forall k in [0, idx) :: isOidStr(CT[k].Oid) && oidv(policyIds[k].ObjectIdentifier) == parseOid(CT[k].Oid) && len(policyIds[k].Qualifiers) == len(CT[k].Qualifiers)
+//@   loop 2
+//@     invariant 0 <= idx && idx <= len(policyObj.Qualifiers) && len(policyIds[i].Qualifiers) == len(policyObj.Qualifiers) && fresh(policyIds[i].Qualifiers)
+
+//@ func (AuthInfoAccess).Oid returns (r)
+//@   props C06
+//@   uses ext.smt2
+//@   ensures @C06 r != nil && oidv(r) == specExtOid(9)
+
+//@ func (AuthInfoAccess).Builder returns (b, err)
+//@   props C06 C07
+//@   uses v1ext.smt2
+//@   inline commonExtensionHandler
+//@   ensures @C06 a.Raw == "" && a.Content == nil ==> err == nil && typeis(b, "gopki/generator/config.OverrideNeededBuilder")
+//@   ensures @C06 a.Raw != "" && a.Content != nil ==> err != nil
+//@   ensures @C06 a.Raw != "" && a.Content == nil ==> ((err == nil) <==> rawOk(a.Raw))
+//@   ensures @C06 a.Raw != "" && a.Content == nil && err == nil ==> typeis(b, "gopki/generator/config.ConstantBuilder") && oidv(unboxed(b, "gopki/generator/config.ConstantBuilder").Extension.Id) == specExtOid(9) && unboxed(b, "gopki/generator/config.ConstantBuilder").Extension.Critical == a.Critical && bytes(unboxed(b, "gopki/generator/config.ConstantBuilder").Extension.Value) == rawBytes(a.Raw)
+//@   let CT = old(seq(a.Content))
+//@   ghostret LIST (View S_cert_AccessDescription) = seq(accessInfoList)
+//@   ensures @C06,C07 bound(LIST) ==> a.Raw == "" && a.Content != nil && err == nil ==> typeis(b, "gopki/generator/config.ConstantBuilder") && oidv(unboxed(b, "gopki/generator/config.ConstantBuilder").Extension.Id) == specExtOid(9) && unboxed(b, "gopki/generator/config.ConstantBuilder").Extension.Critical == a.Critical && bytes(unboxed(b, "gopki/generator/config.ConstantBuilder").Extension.Value) == tlv(0, 16, true, catAia(LIST, 0, #bempty))
+//@   ensures @C07 bound(LIST) ==> a.Raw == "" && a.Content != nil && err == nil ==> vlen(LIST) == len(a.Content) && (forall k in [0, len(a.Content)) :: CT[k].Ocsp != "" && accessInfoList[k].AccessMethod == 0 && gnDer(accessInfoList[k].AccessLocation) == tlv(2, 6, false, strBytes(CT[k].Ocsp)))
+//@   loop 1
+//@     invariant 0 <= idx && idx <= len(a.Content) && len(accessInfoList) == len(a.Content)
+//@     invariant @C07 forall k in [0, idx) :: CT[k].Ocsp != "" && accessInfoList[k].AccessMethod == 0 && accessInfoList[k].AccessLocation != nil && gnDer(accessInfoList[k].AccessLocation) == tlv(2, 6, false, strBytes(CT[k].Ocsp))
+
+//@ func (AuthKeyId).Oid returns (r)
+//@   props C06
+//@   uses ext.smt2
+//@   ensures @C06 r != nil && oidv(r) == specExtOid(3)
+
+//@ func (AuthKeyId).Builder returns (b, err)
+//@   props C06 C07
+//@   uses v1ext.smt2
+//@   inline commonExtensionHandler
+//@   ensures @C06 a.Raw == "" && a.Content.Id == "" ==> err == nil && typeis(b, "gopki/generator/config.OverrideNeededBuilder")
+//@   ensures @C06 a.Raw != "" && a.Content.Id != "" ==> err != nil
+//@   ensures @C06 a.Raw != "" && a.Content.Id == "" ==> ((err == nil) <==> rawOk(a.Raw))
+//@   ensures @C06 a.Raw != "" && a.Content.Id == "" && err == nil ==> typeis(b, "gopki/generator/config.ConstantBuilder") && oidv(unboxed(b, "gopki/generator/config.ConstantBuilder").Extension.Id) == specExtOid(3) && unboxed(b, "gopki/generator/config.ConstantBuilder").Extension.Critical == a.Critical && bytes(unboxed(b, "gopki/generator/config.ConstantBuilder").Extension.Value) == rawBytes(a.Raw)
+//@   let ID = a.Content.Id
+//@   ensures @C07,C01 a.Raw == "" && ID != "" && err == nil ==> (ID == "hash" || (hasPrefix(ID, "!binary:") && rawOk(ID)))
+//@   ensures @C07,C01 a.Raw == "" && ID == "hash" ==> err == nil
+//@   ensures @C07,C01 a.Raw == "" && ID == "hash" && err == nil ==> typeis(b, "gopki/generator/config.FunctionBuilder") && isclosure(unboxed(b, "gopki/generator/config.FunctionBuilder").Function, "(gopki/generator/config/v1.AuthKeyId).Builder$1") && deref(captured(unboxed(b, "gopki/generator/config.FunctionBuilder").Function, 0)) == a
+//@   ensures @C06,C07 a.Raw == "" && ID != "hash" && ID != "" && err == nil ==> typeis(b, "gopki/generator/config.ConstantBuilder") && oidv(unboxed(b, "gopki/generator/config.ConstantBuilder").Extension.Id) == specExtOid(3) && unboxed(b, "gopki/generator/config.ConstantBuilder").Extension.Critical == a.Critical && bytes(unboxed(b, "gopki/generator/config.ConstantBuilder").Extension.Value) == der(akiDeep(rawBytes(ID)))
+
+// the function behind authorityKeyIdentifier "hash": SHA-1 of the ISSUER's public key bits of the context it is compiled in
+//@ func (AuthKeyId).Builder$1 returns (ext, err)
+//@   props C01 C07
+//@   uses ext.smt2
+//@   requires ctx != nil
+//@   ensures @C06 err == nil ==> ext != nil && ext.Critical == a.Critical && oidv(ext.Id) == specExtOid(3)
+//@   ensures @C01,C07 err == nil ==> bytes(ext.Value) == der(akiDeep(digest(3, bytes(old(ctx.Issuer.PublicKeyRaw)))))
+
+//@ func (ExtKeyUsage).Oid returns (r)
+//@   props C06
+//@   uses ext.smt2
+//@   ensures @C06 r != nil && oidv(r) == specExtOid(2)
+
+//@ func (ExtKeyUsage).Builder returns (b, err)
+//@   props C06 C07
+//@   uses v1ext.smt2
+//@   inline commonExtensionHandler
+//@   ensures @C06 e.Raw == "" && e.Content == nil ==> err == nil && typeis(b, "gopki/generator/config.OverrideNeededBuilder")
+//@   ensures @C06 e.Raw != "" && e.Content != nil ==> err != nil
+//@   ensures @C06 e.Raw != "" && e.Content == nil ==> ((err == nil) <==> rawOk(e.Raw))
+//@   ensures @C06 e.Raw != "" && e.Content == nil && err == nil ==> typeis(b, "gopki/generator/config.ConstantBuilder") && oidv(unboxed(b, "gopki/generator/config.ConstantBuilder").Extension.Id) == specExtOid(2) && unboxed(b, "gopki/generator/config.ConstantBuilder").Extension.Critical == e.Critical && bytes(unboxed(b, "gopki/generator/config.ConstantBuilder").Extension.Value) == rawBytes(e.Raw)
+//@   let CT = old(seq(e.Content))
+//@   ghostret LIST (View Slice) = seq(usageList)
+//@   ensures @C07 e.Raw == "" && e.Content != nil && err == nil ==> ekuAllOk(CT, 0)
+//@   ensures @C06,C07 bound(LIST) ==> e.Raw == "" && e.Content != nil && err == nil ==> typeis(b, "gopki/generator/config.ConstantBuilder") && oidv(unboxed(b, "gopki/generator/config.ConstantBuilder").Extension.Id) == specExtOid(2) && unboxed(b, "gopki/generator/config.ConstantBuilder").Extension.Critical == e.Critical && bytes(unboxed(b, "gopki/generator/config.ConstantBuilder").Extension.Value) == der(deep(usageList))
+//@   ensures @C07 bound(LIST) ==> e.Raw == "" && e.Content != nil && err == nil ==> len(usageList) == len(e.Content) && (forall k in [0, len(e.Content)) :: oidv(usageList[k]) == ekuOid(CT[k]))
+//@   loop 1
+//@     invariant 0 <= idx && idx <= len(e.Content) && len(usageList) == len(e.Content)
+//@     invariant @C07 ekuAllOk(CT, idx) == ekuAllOk(CT, 0)
+//@     invariant @C07 forall k in [0, idx) :: oidv(usageList[k]) == ekuOid(CT[k])
+
+//@ func extKeyUsageOid returns (oid, err)
+//@   props C07
+//@   uses v1ext.smt2
+//@   ensures @C07 (err == nil) <==> ekuOk(s)
+//@   ensures @C07 err == nil ==> oidv(oid) == ekuOid(s)
+
+//@ func (AdmissionExtension).Oid returns (r)
+//@   props C06
+//@   uses ext.smt2
+//@   ensures @C06 r != nil && oidv(r) == specExtOid(11)
+
+//@ func (AdmissionExtension).Builder returns (b, err)
+//@   props C06 C07
+//@   uses v1ext.smt2
+//@   inline commonExtensionHandler
+//@   ensures @C06 a.Raw == "" && a.Content == nil ==> err == nil && typeis(b, "gopki/generator/config.OverrideNeededBuilder")
+//@   ensures @C06 a.Raw != "" && a.Content != nil ==> err != nil
+//@   ensures @C06 a.Raw != "" && a.Content == nil ==> ((err == nil) <==> rawOk(a.Raw))
+//@   ensures @C06 a.Raw != "" && a.Content == nil && err == nil ==> typeis(b, "gopki/generator/config.ConstantBuilder") && oidv(unboxed(b, "gopki/generator/config.ConstantBuilder").Extension.Id) == specExtOid(11) && unboxed(b, "gopki/generator/config.ConstantBuilder").Extension.Critical == a.Critical && bytes(unboxed(b, "gopki/generator/config.ConstantBuilder").Extension.Value) == rawBytes(a.Raw)
+//@   ensures @C06 a.Raw == "" && a.Content != nil && err == nil ==> typeis(b, "gopki/generator/config.ConstantBuilder") && oidv(unboxed(b, "gopki/generator/config.ConstantBuilder").Extension.Id) == specExtOid(11) && unboxed(b, "gopki/generator/config.ConstantBuilder").Extension.Critical == a.Critical
+
+//@ func (OcspNoCheckExtension).Oid returns (r)
+//@   props C06
+//@   uses ext.smt2
+//@   ensures @C06 r != nil && oidv(r) == specExtOid(12)
+
+//@ func (OcspNoCheckExtension).Builder returns (b, err)
+//@   props C06 C07
+//@   uses v1ext.smt2
+//@   inline commonExtensionHandler
+//@   ensures @C06 o.Raw != "" ==> ((err == nil) <==> rawOk(o.Raw))
+//@   ensures @C06 o.Raw != "" && err == nil ==> typeis(b, "gopki/generator/config.ConstantBuilder") && oidv(unboxed(b, "gopki/generator/config.ConstantBuilder").Extension.Id) == specExtOid(12) && unboxed(b, "gopki/generator/config.ConstantBuilder").Extension.Critical == o.Critical && bytes(unboxed(b, "gopki/generator/config.ConstantBuilder").Extension.Value) == rawBytes(o.Raw)
+//@   ensures @C06,C07 o.Raw == "" ==> err == nil && typeis(b, "gopki/generator/config.ConstantBuilder")
+//@   ensures @C06,C07 typeis(b, "gopki/generator/config.ConstantBuilder") && o.Raw == "" ==> oidv(unboxed(b, "gopki/generator/config.ConstantBuilder").Extension.Id) == specExtOid(12) && unboxed(b, "gopki/generator/config.ConstantBuilder").Extension.Critical == o.Critical && bytes(unboxed(b, "gopki/generator/config.ConstantBuilder").Extension.Value) == bcat(bunit(b8(5)), bunit(b8(0)))
+
+// a custom extension is raw bytes under the configured OID; the OID text was checked when the configuration was parsed
+//@ func (CustomExtension).Oid returns (r)
+//@   props C06 C20
+//@   uses names.smt2
+//@   requires isOidStr(c.OidStr)
+//@   ensures @C06 oidv(r) == parseOid(c.OidStr)
+
+//@ func (CustomExtension).Builder returns (b, err)
+//@   props C06
+//@   uses v1ext.smt2
+//@   inline commonExtensionHandler
+//@   requires isOidStr(c.OidStr)
+//@   ensures @C06 c.Raw == "" ==> err == nil && typeis(b, "gopki/generator/config.OverrideNeededBuilder")
+//@   ensures @C06 c.Raw != "" ==> ((err == nil) <==> rawOk(c.Raw))
+//@   ensures @C06 c.Raw != "" && err == nil ==> typeis(b, "gopki/generator/config.ConstantBuilder") && oidv(unboxed(b, "gopki/generator/config.ConstantBuilder").Extension.Id) == parseOid(c.OidStr) && unboxed(b, "gopki/generator/config.ConstantBuilder").Extension.Critical == c.Critical && bytes(unboxed(b, "gopki/generator/config.ConstantBuilder").Extension.Value) == rawBytes(c.Raw)
+
+// ---- admission (C16): the configured tree is converted field by field
+//@ func (GeneralName).convert returns (res, err)
+//@   props C16
+//@   uses v1ext.smt2
+//@   ensures @C16 g.Type == "dns" ==> err == nil && res != nil && gnDer(res) == tlv(2, 2, false, strBytes(g.Name))
+//@   ensures @C16 g.Type == "mail" ==> err == nil && res != nil && gnDer(res) == tlv(2, 1, false, strBytes(g.Name))
+//@   ensures @C16 g.Type == "url" ==> err == nil && res != nil && gnDer(res) == tlv(2, 6, false, strBytes(g.Name))
+//@   ensures @C16 g.Type == "ip" ==> ((err == nil) <==> ipOk(g.Name)) && (err == nil ==> res != nil && gnDer(res) == tlv(2, 7, false, ipBytes(g.Name)))
+//@   ensures @C16 g.Type == "" ==> err == nil && res == nil
+//@   ensures @C16 g.Type != "dns" && g.Type != "mail" && g.Type != "url" && g.Type != "ip" && g.Type != "" ==> err != nil
+//@   ensures err != nil ==> res == nil
+//@   loop 1
+//@     invariant 0 <= idx && idx <= len(octets) && len(octets) == 4
+//@     invariant @C16 forall j in [0, idx) :: octetOk(g.Name, j) && ipAddr[j] == octet(g.Name, j)
+
+//@ func (NamingAuthority).convert returns (res, err)
+//@   props C16
+//@   uses v1ext.smt2
+//@   ensures @C16 n.Oid != "" ==> ((err == nil) <==> isOidStr(n.Oid))
+//@   ensures @C16 n.Oid == "" ==> err == nil
+//@   ensures @C16 err == nil ==> res != nil && fresh(res) && res.URL == n.Url && res.Text == n.Text && (if n.Oid != "" then oidv(res.Oid) == parseOid(n.Oid) else res.Oid == nil)
+//@   ensures err != nil ==> res == nil
+
+//@ func (SingleAdmission).convert returns (res, err)
+//@   props C16
+//@   uses v1ext.smt2
+//@   let PI = old(seq(s.ProfessionInfos))
+//@   ensures err != nil ==> res == nil
+//@   ensures @C16 err == nil ==> res != nil && fresh(res) && res.NamingAuthority.URL == s.NamingAuthority.Url && res.NamingAuthority.Text == s.NamingAuthority.Text && (if s.NamingAuthority.Oid != "" then oidv(res.NamingAuthority.Oid) == parseOid(s.NamingAuthority.Oid) else res.NamingAuthority.Oid == nil)
+//@   ensures @C16 err == nil ==> (if s.AdmissionAuthority.Type == "" then res.AdmissionAuthority == nil else res.AdmissionAuthority != nil && gnDer(res.AdmissionAuthority) == gnSpec(s.AdmissionAuthority.Type, s.AdmissionAuthority.Name))
+//@   ensures @C16 err == nil ==> len(res.ProfessionInfos) == len(s.ProfessionInfos) && (forall k in [0, len(s.ProfessionInfos)) :: res.ProfessionInfos[k].ProfessionItems == PI[k].ProfessionItems && res.ProfessionInfos[k].RegistrationNumber == PI[k].RegistrationNumber && res.ProfessionInfos[k].NamingAuthority.URL == PI[k].NamingAuthority.Url && res.ProfessionInfos[k].NamingAuthority.Text == PI[k].NamingAuthority.Text && len(res.ProfessionInfos[k].ProfessionOids) == len(PI[k].ProfessionOids) && (if PI[k].AddProfessionInfo != "" then bytes(res.ProfessionInfos[k].AddProfessionInfo) == rawBytes(PI[k].AddProfessionInfo) else res.ProfessionInfos[k].AddProfessionInfo == nil))
+//@   loop 1
+//@     invariant 0 <= idx && idx <= len(s.ProfessionInfos) && len(profInfo) == len(s.ProfessionInfos)
+//@     invariant @C16 forall k in [0, idx) :: profInfo[k].ProfessionItems == PI[k].ProfessionItems && profInfo[k].RegistrationNumber == PI[k].RegistrationNumber && profInfo[k].NamingAuthority.URL == PI[k].NamingAuthority.Url && profInfo[k].NamingAuthority.Text == PI[k].NamingAuthority.Text && len(profInfo[k].ProfessionOids) == len(PI[k].ProfessionOids) && (if PI[k].AddProfessionInfo != "" then bytes(profInfo[k].AddProfessionInfo) == rawBytes(PI[k].AddProfessionInfo) else profInfo[k].AddProfessionInfo == nil)
+//@   loop 2
+//@     invariant 0 <= idx && idx <= len(pi.ProfessionOids) && len(profOids) == len(pi.ProfessionOids)
+
+//@ func (Admission).convert returns (res, err)
+//@   props C16
+//@   uses v1ext.smt2
+//@   ensures err != nil ==> res == nil
+//@   ensures @C16 err == nil ==> res != nil && fresh(res) && len(res.Contents) == len(a.Admissions)
+//@   ensures @C16 err == nil ==> (if a.AdmissionAuthority.Type == "" then res.AdmissionAuthority == nil else res.AdmissionAuthority != nil && gnDer(res.AdmissionAuthority) == gnSpec(a.AdmissionAuthority.Type, a.AdmissionAuthority.Name))
+//@   loop 1
+//@     invariant 0 <= idx && idx <= len(a.Admissions) && len(adms) == len(a.Admissions)
